@@ -88,6 +88,17 @@ func baseChain(v ssa.Value) []ssa.Value {
 			} else {
 				return out
 			}
+		case *ssa.Call:
+			// a slice, pointer or map handed out by a method of the object (buf.Bytes()) shares its storage
+			if x.Call.IsInvoke() || x.Call.Signature().Recv() == nil || len(x.Call.Args) == 0 {
+				return out
+			}
+			switch x.Type().Underlying().(type) {
+			case *types.Slice, *types.Pointer, *types.Map:
+				v = x.Call.Args[0]
+			default:
+				return out
+			}
 		default:
 			return out
 		}
@@ -424,6 +435,9 @@ func runAtomicConsistency(c *core.Ctx, rule string, scope func(*ssa.Function) bo
 // ---------------------------------------------------------------- driver
 
 func runC14(c *core.Ctx) {
+	defer func() {
+		c.Share(map[string]string{"R17.1": "R14.8"}, runC17) // the in-memory backend is one instance shared by all connections: its map is shared mutable state
+	}()
 	c.Rule("R14.1", "every package-level variable of the server packages is classified: immutable after initialisation, synchronisation primitive, accessed only through sync/atomic, written only under one mutex, or unique-slot registration (index claimed by an atomic increment); anything else is shared mutable state", 40)
 	c.Rule("R14.2", "a location updated through sync/atomic is never read, copied or written plainly at run time unless under the exclusive lock that all its atomic writers hold; registration-time (init-only) code is exempt", 12)
 	c.Rule("R14.3", "after Put / PutResponseHeader(x) on a path, x is not read, written, released again or returned (deferred releases are fine); a deferred release never returns the object", 20)
@@ -458,9 +472,11 @@ func runC14(c *core.Ctx) {
 			sites++
 			for _, r := range ssax.Returns(fn) {
 				for _, res := range r.Results {
-					for _, bv := range baseChain(res) {
-						if bv == rel {
-							viols = append(viols, fmt.Sprintf("pooled object %s is returned although a deferred release puts it back at exit (%s)", rel.Name(), c.P.Pos(d.Pos())))
+					for _, def := range append([]ssa.Value{res}, ssax.Defs(res)...) {
+						for _, bv := range baseChain(def) {
+							if bv == rel {
+								viols = append(viols, fmt.Sprintf("pooled object %s (or storage it hands out) is returned although a deferred release puts it back at exit (%s)", rel.Name(), c.P.Pos(d.Pos())))
+							}
 						}
 					}
 				}
